@@ -22,7 +22,7 @@ ASSUMPTIONS = [
 ]
 MONITORS = "TransferResult vs os.walk listings of the destination before/after, per-oid upload log, source byte snapshot and audit-hook mutation log on the source"
 REQUIRED_COUNTERS = [
-    "rounds_status_hook_returns_a_value", "index_across_sessions_rounds", "wide_directory_scenarios", "rounds_destination_of_other_md5_flavour", "ids_as/iterator", "ids_as/generator", "rounds_with_hardlink_option", "rounds_read_only_destination", "rounds_source_index_clear_fails", "rounds_source_vanishes", "corrupt_parseable_dir_objects", "rounds_with_index", "rounds_dest_with_state", "rounds", "rounds_with_failures", "rounds_with_preexisting", "rounds_missing_both_sides", "rounds_verify_corrupt_source",
+    "rounds_verifying_by_configuration_only", "rounds_status_hook_returns_a_value", "index_across_sessions_rounds", "wide_directory_scenarios", "rounds_destination_of_other_md5_flavour", "ids_as/iterator", "ids_as/generator", "rounds_with_hardlink_option", "rounds_read_only_destination", "rounds_source_index_clear_fails", "rounds_source_vanishes", "corrupt_parseable_dir_objects", "rounds_with_index", "rounds_dest_with_state", "rounds", "rounds_with_failures", "rounds_with_preexisting", "rounds_missing_both_sides", "rounds_verify_corrupt_source",
     "transferred_objects_checked", "source_snapshots_compared", "rounds_expanded", "rounds_local_dest", "rounds_remote_dest",
 ]
 
@@ -328,8 +328,12 @@ def run_shard(ctx):
                         info["ids_as"] = form
                         ids_arg = {"set": lambda: set(ids), "list": lambda: list(ids), "tuple": lambda: tuple(ids), "iterator": lambda: iter(list(ids)),
                                    "generator": lambda: (i_ for i_ in list(ids))}[form]()
-                        r = transfer(src, sc.dest, ids_arg, jobs=jobs, shallow=shallow, verify=verify, cache_odb=src, validate_status=vs_hook,
-                                     hardlink=hardlink, src_index=sidx)
+                        # (a destination that is configured to verify verifies whether or not the call repeats that wish)
+                        vkw = {} if (verify and rng.random() < 0.5) else {"verify": verify}
+                        if not vkw:
+                            res.count("rounds_verifying_by_configuration_only")
+                        r = transfer(src, sc.dest, ids_arg, jobs=jobs, shallow=shallow, cache_odb=src, validate_status=vs_hook,
+                                     hardlink=hardlink, src_index=sidx, **vkw)
                     except Exception as e:  # noqa: BLE001
                         from dvc_objects.errors import ObjectDBError as _ODBE2
 
